@@ -200,7 +200,8 @@ def r2c_key_stash(rep, facts, rid='C07/R2c'):
         some = all(any((y.get('path') or '').endswith('Option::Some') for y in walk(st['rhs'])) for st in stores)
         rep.check(R, f'{imp.get("self_ty")}|serialize_key', not cond and some, f'self.{field} = Some(..)', f'`{d}` fills `self.{field}` only under a test of the stash itself: a key left by a skipped '
                   f'`None` value is then kept for the next entry', facts.loc(b))
-    rep.check(R, 'count', n >= 2, f'{n} stashing serialize_key implementations', f'only {n} stashing implementations of SerializeMap::serialize_key found')
+    want = 2 if 'toml' in facts.crates else 1
+    rep.check(R, 'count', n >= want, f'{n} stashing serialize_key implementations', f'only {n} stashing implementations of SerializeMap::serialize_key found ({want} expected in this configuration)')
 
 
 def r4_container_typing(rep, facts):
